@@ -1,8 +1,85 @@
+/-
+  C02 — line-protocol ops of the identifier model (digests with the Lean SHA-256).
+
+    c02.ids <tx>            GetTxid, GetHash, has_witness   → <txid>:<wtxid>:W<0|1> | err:<family>
+    c02.spec.ids <tx>       Spec.txid, Spec.wtxid           → <txid>:<wtxid>:W<0|1>
+    c02.hdrhash <header>    CBlockHeader.GetHash            → hex
+    c02.blockhash <block>   CBlock.GetHash                  → hex
+    c02.spec.blockhash <block>   H(80-byte header)          → hex
+    c02.eq <tx> <tx>        Serializable.__eq__             → 1 | 0 | err:<family>
+    c02.obj <kind> <obj>    GetHash() of an object of any serialisable class          → hex
+    c02.objpair <kind> <a> <b>   a == b (by serialisation), GetHash of both       → <0|1>:<hashA>:<hashB>
+      kind ∈ outpoint (hash,n) | txin | txout | swit | inwit (stack) | wit | tx | hdr | blk
+-/
 import Driver.Util
+import Driver.TxFmt
+import BtcVerif.Model.Ident
+import BtcVerif.Spec.Ident
 
 namespace Driver.C02
-open BtcVerif Driver
+open BtcVerif Driver Driver.TxFmt
+open BtcVerif.Model.Ident
 
-def handle (_op : String) (_args : List String) : Option String := none
+def wflag (t : Tx) : String := if t.hasWitness then "W1" else "W0"
+
+def ids (t : Tx) : Res String := do
+  let a ← getTxid t
+  let b ← getHash t
+  pure s!"{toHex a}:{toHex b}:{wflag t}"
+
+def parseOutPoint? (s : String) : Option OutPoint :=
+  match s.splitOn "," with
+  | [h, n] => do
+      let h ← parseHex? h; let n ← parseNat? n
+      pure { hash := h, n := n }
+  | _ => none
+
+def parseObj? (kind s : String) : Option Obj :=
+  match kind with
+  | "outpoint" => (parseOutPoint? s).map .outPoint
+  | "txin" => (parseTxIn? s).map .txIn
+  | "txout" => (parseTxOut? s).map .txOut
+  | "swit" => (parseStack? s).map .scriptWit
+  | "inwit" => (parseStack? s).map .inWit
+  | "wit" => (parseWit? s).map .wit
+  | "tx" => (parseTx? s).map .tx
+  | "hdr" => (parseHeader? s).map .header
+  | "blk" => (parseBlock? s).map .block
+  | _ => none
+
+def objPair (a b : Obj) : Res String := do
+  let e ← objEq ⟨.immutable, a⟩ ⟨.mutable, b⟩
+  let ha ← a.getHashWith Crypto.hash256
+  let hb ← b.getHashWith Crypto.hash256
+  pure s!"{if e then "1" else "0"}:{toHex ha}:{toHex hb}"
+
+def handle (op : String) (args : List String) : Option String :=
+  match op, args with
+  | "c02.ids", [t] => some <| match parseTx? t with
+      | some t => Res.render (ids t)
+      | none => badArgs
+  | "c02.spec.ids", [t] => some <| match parseTx? t with
+      | some t => s!"{toHex (Spec.Ident.txid Crypto.hash256 t)}:{toHex (Spec.Ident.wtxid Crypto.hash256 t)}:{wflag t}"
+      | none => badArgs
+  | "c02.hdrhash", [h] => some <| match parseHeader? h with
+      | some h => Res.render ((headerHash h).map toHex)
+      | none => badArgs
+  | "c02.blockhash", [b] => some <| match parseBlock? b with
+      | some b => Res.render ((blockHash b).map toHex)
+      | none => badArgs
+  | "c02.spec.blockhash", [b] => some <| match parseBlock? b with
+      | some b => toHex (Spec.Ident.blockHash Crypto.hash256 b)
+      | none => badArgs
+  | "c02.obj", [k, a] => some <| match parseObj? k a with
+      | some o => Res.render ((o.getHashWith Crypto.hash256).map toHex)
+      | none => badArgs
+  | "c02.objpair", [k, a, b] => some <| match parseObj? k a, parseObj? k b with
+      | some a, some b => Res.render (objPair a b)
+      | _, _ => badArgs
+  | "c02.eq", [a, b] => some <| match parseTx? a, parseTx? b with
+      | some a, some b =>
+          Res.render ((pyEq ⟨.immutable, a⟩ ⟨.mutable, b⟩).map fun r => if r then "1" else "0")
+      | _, _ => badArgs
+  | _, _ => none
 
 end Driver.C02
